@@ -69,6 +69,14 @@ impl Engine {
 impl<'a> HasBytes for &'a [u8] { open spec fn bytes_view(&self) -> Seq<u8> { (**self)@ } }
 impl HasBytes for String { open spec fn bytes_view(&self) -> Seq<u8> { utf8(self@) } }
 impl HasBytes for Bytes { open spec fn bytes_view(&self) -> Seq<u8> { self@ } }
+// A-bytes-28: Bytes: From<String> is the UTF-8 bytes of the string
+pub uninterp spec fn bytes_of_string(s: String) -> Bytes;
+pub broadcast axiom fn axiom_bytes_of_string(s: String) ensures (#[trigger] bytes_of_string(s))@ == utf8(s@);
+impl vstd::std_specs::convert::FromSpecImpl<String> for Bytes {
+    open spec fn obeys_from_spec() -> bool { true }
+    open spec fn from_spec(v: String) -> Self { bytes_of_string(v) }
+}
+impl From<String> for Bytes { #[verifier::external_body] fn from(v: String) -> (r: Bytes) { unimplemented!() } }
 pub mod util { pub mod base64 {
     pub const STANDARD_NO_PAD: crate::Engine = crate::Engine { pad: false };
     pub const STANDARD: crate::Engine = crate::Engine { pad: true };
